@@ -281,6 +281,13 @@ pub fn restart_grid() -> Vec<(usize, usize, usize)> {
     v
 }
 
+/// very long streams for tiny k: (k, n, sampler runs). Past n/k = 2^25 a probability computed in
+/// single precision is exactly 0; the stream itself is cheap because the skipping phase does no work
+/// between accepted items.
+pub fn deep_grid() -> Vec<(usize, usize, u64)> {
+    vec![(1, 1 << 27, 6), (2, 1 << 28, 3)]
+}
+
 pub fn large_grid() -> Vec<(usize, usize)> {
     vec![(64, 10_000), (64, 100_000), (256, 10_000), (256, 100_000)]
 }
@@ -303,6 +310,14 @@ pub struct Region {
 
 pub fn regions(k: usize, n: usize) -> Vec<Region> {
     let mut r = vec![];
+    if n > 10_000_000 {
+        // deep cells: only the ends of the stream (summing 10^8 counters per region costs more than the run)
+        r.push(Region { name: "first-k".into(), lo: 0, hi: k });
+        r.push(Region { name: "last-2^20".into(), lo: n - (1 << 20), hi: n });
+        r.push(Region { name: "last-k".into(), lo: n - k, hi: n });
+        r.push(Region { name: "last-item".into(), lo: n - 1, hi: n });
+        return r;
+    }
     r.push(Region { name: "first-k".into(), lo: 0, hi: k.min(n) });
     if n > k {
         r.push(Region { name: "reservoir-phase".into(), lo: k, hi: (4 * k).min(n) });
@@ -458,7 +473,7 @@ fn region_class(k: usize, n: usize, what: &str) -> String {
         } else {
             "gap-phase".to_string()
         }
-    } else if what.starts_with("gap-slice") {
+    } else if what.starts_with("gap-slice") || what == "last-2^20" {
         "gap-phase".to_string()
     } else {
         what.to_string()
@@ -475,8 +490,13 @@ impl Scenario for S3b {
         let small = small_grid();
         let restart = restart_grid();
         let large = large_grid();
-        let total = small.len() + restart.len() + if tier == Tier::Thorough { large.len() } else { 0 };
+        let deep = deep_grid();
+        let total = small.len() + restart.len() + deep.len() + if tier == Tier::Thorough { large.len() } else { 0 };
         let idx = (run as usize) % total;
+        if idx >= total - deep.len() - if tier == Tier::Thorough { large.len() } else { 0 } && idx < small.len() + restart.len() + deep.len() {
+            let (k, n, m) = deep[idx - small.len() - restart.len()];
+            return UniCase { k, n, m, batch_seed: seed, warmup: 0 };
+        }
         let scale = if tier == Tier::Thorough { 10 } else { 1 };
         if idx < small.len() {
             let (k, n) = small[idx];
@@ -487,7 +507,7 @@ impl Scenario for S3b {
             let m = if k <= 16 { 100_000 } else { 20_000 } * scale;
             UniCase { k, n, m, batch_seed: seed, warmup }
         } else {
-            let (k, n) = large[idx - small.len() - restart.len()];
+            let (k, n) = large[idx - small.len() - restart.len() - deep.len()];
             let m = if n >= 100_000 { 3_000 } else { 10_000 };
             UniCase { k, n, m, batch_seed: seed, warmup: 0 }
         }
